@@ -2912,6 +2912,12 @@ class TagsCmd(EupsCmd):
         self.clo.add_option("--delete", action="store", default=None,
                             help="Specify a tag to delete")
 
+    def __init__(self, **kwargs):
+        EupsCmd.__init__(self, **kwargs)
+
+        if self.opts.clone or self.opts.delete: # these update the database; listing tags only reads it
+            self.lockType = lock.LOCK_EX
+
     def execute(self):
         myeups = self.createEups(self.opts)
 
